@@ -407,7 +407,7 @@ pub fn evaluate(plan: &Plan, apps: &Apps, pool: &Pool, twin: bool, stats: Option
         // receiver identity is checked inside each execution (O1); across two
         // executions stack-local receivers (by-value deps) legitimately differ
         let compare_recv = false;
-        match oracle::compare_twin(&r, &r2, &static_task, compare_recv) {
+        match oracle::compare_twin(&r, &r2, &static_task, compare_recv, pool.history_oracle) {
             Twin::Same => {}
             Twin::Misaligned => twin_misaligned = true,
             Twin::Differs(msg) => {
@@ -706,7 +706,7 @@ pub fn check(args: &[String]) -> i32 {
     found.sort_by_key(|f| f.run_index);
     if let Some(f) = found.first() {
         let kind = Kind::Oracle(f.violations[0].oracle.to_string());
-        if let Some(r) = isolate_and_write(&property, &pool, seed, seed_eff, &verif, kind, Some(f), (f.run_index + 1).clamp(200_000, 1_000_000)) {
+        if let Some(r) = isolate_and_write(&property, &pool, seed, seed_eff, &verif, kind, Some(f), (f.run_index + 1).clamp(200_000, 1_000_000), if tier == "thorough" { 600.0 } else { 28.0 }) {
             if let Some(k) = known.iter().find(|k| k.property_id == property && k.status == "open" && k.signature == r.signature) {
                 println!("KNOWN-FINDING: property={property} {}", k.what);
             } else {
@@ -1004,8 +1004,8 @@ pub struct Reported {
 
 /// Reproduce in a fresh process, minimise the scenario, write the replay file.
 #[allow(clippy::too_many_arguments)]
-pub fn isolate_and_write(property: &str, pool: &Pool, seed: u64, seed_eff: u64, verif: &Path, kind: Kind, found: Option<&Found>, upto: u64) -> Option<Reported> {
-    let mut iso = Isolator::new(property, seed_eff, verif);
+pub fn isolate_and_write(property: &str, pool: &Pool, seed: u64, seed_eff: u64, verif: &Path, kind: Kind, found: Option<&Found>, upto: u64, budget_s: f64) -> Option<Reported> {
+    let mut iso = Isolator::new(property, seed_eff, verif).with_budget(budget_s);
     let mut scenario: Option<Scenario> = None;
     let mut class = "reproduced alone in a fresh process";
     if let Some(f) = found {
@@ -1100,7 +1100,7 @@ pub fn crash_triage(args: &[String]) -> i32 {
     let part = arg_value(args, "--part").unwrap_or_else(|| "first".into());
     let seed_eff = if UNIMOCK_BUILD { seed ^ 0x756e_696d_6f63_6b00 } else { seed };
     println!("gensim: the search process died or hung; locating the run in fresh child processes (runs are a pure function of (seed, index))");
-    let Some(r) = isolate_and_write(&property, &pool, seed, seed_eff, &verif, Kind::Death, None, 2_000_000) else {
+    let Some(r) = isolate_and_write(&property, &pool, seed, seed_eff, &verif, Kind::Death, None, 2_000_000, if tier == "thorough" { 800.0 } else { 240.0 }) else {
         eprintln!("HARNESS-ERROR: the search process died but no sequential history of runs reproduces the death in a fresh process");
         return 2;
     };
